@@ -240,7 +240,7 @@ fn run_suite<S: ShortGroupSignatureScheme>(v: &Value, ps: bool) -> Value {
                     shared.insert(key, n);
                 }
             }
-            "comm" => {
+            "comm" | "venc" => {
                 let key = (st["ref"].as_str().unwrap().to_string(), st["claim"].as_u64().unwrap() as usize);
                 if !shared.contains_key(&key) {
                     let n = rnd(&mut cx.rng);
@@ -260,6 +260,10 @@ fn run_suite<S: ShortGroupSignatureScheme>(v: &Value, ps: bool) -> Value {
     }
     let mut sig_of: IndexMap<String, usize> = IndexMap::new(); // sig stmt id -> cred index
     let mut comm_gens: IndexMap<String, (Sh1, Sh1)> = IndexMap::new();
+    let mut venc_gens: IndexMap<String, (Sh1, Sh1)> = IndexMap::new();
+    fn st_cred(spec: &Vec<Value>, sid: &str) -> usize {
+        spec.iter().find(|s| s["k"] == "sig" && s["id"] == sid).map(|s| s["cred"].as_u64().unwrap() as usize).unwrap_or(0)
+    }
     for st in stmts_spec {
         let id = st["id"].as_str().unwrap().to_string();
         match st["k"].as_str().unwrap() {
@@ -295,6 +299,19 @@ fn run_suite<S: ShortGroupSignatureScheme>(v: &Value, ps: bool) -> Value {
                 let claim = st["claim"].as_u64().unwrap() as usize;
                 statements.push(CommitmentStatement { id: id.clone(), reference_id: r.clone(), message_generator: gm.pt, blinder_generator: gb.pt, claim }.into());
                 model_schema.push(json!({"k":"comm","id":idn(&ids,&id),"ref":idn(&ids,&r),"claim":claim,"gm":hexs(&gm.dl),"gb":hexs(&gb.dl)}));
+            }
+            "venc" => {
+                let gm = Sh1::gen(rnd(&mut cx.rng));
+                let r = st["ref"].as_str().unwrap().to_string();
+                let claim = st["claim"].as_u64().unwrap() as usize;
+                let ci = st_cred(stmts_spec, &r);
+                let (ipub, iss, _) = issuers[creds[ci].issuer].as_ref().unwrap();
+                let dk: Scalar = fj(&tj(&iss.verifiable_decryption_key));
+                let ek = Sh1 { pt: ipub.verifiable_encryption_key.0, dl: dk };
+                venc_gens.insert(id.clone(), (gm, ek));
+                let dec = st["dec"].as_bool().unwrap_or(false);
+                statements.push(VerifiableEncryptionStatement { message_generator: gm.pt, encryption_key: ipub.verifiable_encryption_key, id: id.clone(), reference_id: r.clone(), claim, allow_message_decryption: dec }.into());
+                model_schema.push(json!({"k":"venc","id":idn(&ids,&id),"ref":idn(&ids,&r),"claim":claim,"gm":hexs(&gm.dl),"ek":hexs(&ek.dl),"dec":dec}));
             }
             _ => panic!("unknown statement kind"),
         }
@@ -574,6 +591,31 @@ fn run_suite<S: ShortGroupSignatureScheme>(v: &Value, ps: bool) -> Value {
         comms.insert(id, CommMat { c: gm.mul(m).add(&gb.mul(b)), m, b, nm, nb });
     }
 
+    // verifiable encryptions (no decryptable part: that needs bulletproofs)
+    struct VencMat {
+        c1: Sh1,
+        c2: Sh1,
+        k: Scalar,
+        r: Scalar,
+    }
+    let mut vencs: IndexMap<String, VencMat> = IndexMap::new();
+    for st in stmts_spec {
+        if st["k"].as_str().unwrap() != "venc" {
+            continue;
+        }
+        let id = st["id"].as_str().unwrap().to_string();
+        let r = st["ref"].as_str().unwrap().to_string();
+        let claim = st["claim"].as_u64().unwrap() as usize;
+        let (gm, ek) = venc_gens[&id];
+        let cred = &creds[sig_of[&r]];
+        let mut m = cred.msgs[claim];
+        if id == target && (devk == "venc_subst_shared" || devk == "venc_subst_independent") {
+            m += Scalar::ONE;
+        }
+        let k = rnd(&mut cx.rng);
+        vencs.insert(id, VencMat { c1: Sh1::gen(k), c2: gm.mul(m).add(&ek.mul(k)), k, r: rnd(&mut cx.rng) });
+    }
+
     // ---- assemble a presentation for a given challenge
     let build = |c: Scalar, mats: &IndexMap<String, SigMat>, fin: bool| -> (Presentation<S>, Value) {
         let mut proofs: IndexMap<String, PresentationProofs<S>> = IndexMap::new();
@@ -674,6 +716,17 @@ fn run_suite<S: ShortGroupSignatureScheme>(v: &Value, ps: bool) -> Value {
                     proofs.insert(id.clone(), p.into());
                     mproofs.push(json!([idn(&ids,&id), {"k":"comm","id":idn(&ids,&id),"c":hexs(&cpt.dl),"bp":hexs(&bp)}]));
                     let _ = (cm.m, cm.nm);
+                }
+                "venc" => {
+                    if id == target && devk == "omit_pred" {
+                        continue;
+                    }
+                    let vm = &vencs[&id];
+                    let mut bp = vm.r + c * vm.k;
+                    if fin && id == target && devk == "tamper_bp" { bp += Scalar::ONE; }
+                    let p = VerifiableEncryptionProof { id: id.clone(), c1: vm.c1.pt, c2: vm.c2.pt, blinder_proof: bp, decryptable_scalar_proof: None };
+                    proofs.insert(id.clone(), p.into());
+                    mproofs.push(json!([idn(&ids,&id), {"k":"venc","id":idn(&ids,&id),"c1":hexs(&vm.c1.dl),"c2":hexs(&vm.c2.dl),"bp":hexs(&bp),"has":false}]));
                 }
                 _ => {}
             }
